@@ -5,7 +5,7 @@ class C06(ProgProp):
     id = "C06"
     report = ("C06",)
     cfg = {"p_sync": 0.1, "p_try": 0.12, "p_fault": 0.12, "p_ctx": 0.3, "p_sv": 0.05, "p_na": 0.06, "p_timer": 0.04,
-           "p_create": 0.2, "p_ref": 0.2, "item_faults": 0.04}
+           "p_create": 0.2, "p_ref": 0.2, "item_faults": 0.04, "p_cb_ctx": 0.2}
 
     def tune(self, rng, cfg, tier):
         if cfg["p_na"] > 0:
@@ -24,7 +24,7 @@ class C06(ProgProp):
         if rng.random() < 0.15:
             # a context whose resume() raises when its suspended task is resumed: the task fails;
             # every other context it holds must still end paused
-            case["spec"].setdefault("faults", {}).setdefault("ctx", {})["#%d" % rng.randint(1, 4)] = ["resume", rng.randint(2, 3)]
+            case["spec"].setdefault("faults", {}).setdefault("ctx", {})["#%d" % rng.randint(1, 4)] = [rng.choice(["resume", "resume", "pause"]), rng.randint(2, 3)]
             case["spec"]["ctx_fault"] = True
         return case
 
